@@ -290,6 +290,33 @@ static string opInclAll(const vector<string>& a)
 	return "w=" + v;
 }
 
+
+static string joinSortedEarly(vector<string> v)
+{
+	std::sort(v.begin(), v.end());
+	std::ostringstream os;
+	for (size_t i = 0; i < v.size(); ++i) { if (i) os << ","; os << v[i]; }
+	if (v.empty()) os << "-";
+	return os.str();
+}
+
+// the dictionary helpers of util.cc that the CLI uses to name result states (C02): dictionaries "q<k>" <-> k for the
+// operand states plus one entry for a state that does not occur in the automaton (pruned)
+static AutBase::StateDict dictOf(const TA& a)
+{
+	AutBase::StateDict d;
+	for (size_t q : a.GetUsedStates()) d.insert(std::make_pair("q" + std::to_string(q), q));
+	d.insert(std::make_pair("q777777", static_cast<size_t>(777777)));
+	return d;
+}
+
+static string dumpNameDict(const AutBase::StateDict& d)
+{
+	vector<string> v;
+	for (auto& p : d) v.push_back(p.first + ">" + std::to_string(p.second));
+	return joinSortedEarly(v);
+}
+
 static string opUnion(const vector<string>& a, bool pre)
 {
 	TA A = buildTA(parseTA(a.at(0))), B = buildTA(parseTA(a.at(1)));
@@ -297,7 +324,8 @@ static string opUnion(const vector<string>& a, bool pre)
 	if (pre) { ml = parseMap(a.at(2)); mr = parseMap(a.at(3)); }
 	TA U = TA::Union(A, B, &ml, &mr);
 	TA U2 = TA::Union(A, B);   // maps absent
-	return "U=" + dumpTA(U) + " ml=" + dumpMap(ml) + " mr=" + dumpMap(mr) + " U2=" + dumpTA(U2) +
+	string names = dumpNameDict(Util::CreateUnionStringToStateMap(dictOf(A), dictOf(B), &ml, &mr));
+	return "U=" + dumpTA(U) + " ml=" + dumpMap(ml) + " mr=" + dumpMap(mr) + " names=" + names + " U2=" + dumpTA(U2) +
 		" A=" + dumpTA(A) + " B=" + dumpTA(B);
 }
 
@@ -314,7 +342,8 @@ static string opIsect(const vector<string>& a, bool bu)
 	AutBase::ProductTranslMap m;
 	TA P = bu ? TA::IntersectionBU(A, B, &m) : TA::Intersection(A, B, &m);
 	TA P2 = bu ? TA::IntersectionBU(A, B) : TA::Intersection(A, B);
-	return "P=" + dumpTA(P) + " m=" + dumpPairMap(m) + " P2=" + dumpTA(P2) + " A=" + dumpTA(A) + " B=" + dumpTA(B);
+	string names = dumpNameDict(Util::CreateProductStringToStateMap(dictOf(A), dictOf(B), m));
+	return "P=" + dumpTA(P) + " m=" + dumpPairMap(m) + " names=" + names + " P2=" + dumpTA(P2) + " A=" + dumpTA(A) + " B=" + dumpTA(B);
 }
 
 static string opTrim(const vector<string>& a)
